@@ -27,7 +27,8 @@ X64 = True
 RULE = (
     "complete enumeration, per built-in equation, of basis fields (monomials of degree <= deg, all pairwise sums for quadratic "
     "residuals; exp(polynomial) fields for the log-form GLV) x corner grid of every equation parameter (2 values per affine "
-    "parameter, 3 for sigma) x Tmax {1, 2.5} x network/parameter key layouts x tensor grid of points, plus one exact solution "
+    "parameter, 3 for sigma) x Tmax {1, 2.5} x network/parameter key layouts x tensor grid of points (Burgers / Fisher-KPP also with a "
+    "parameter declared heterogeneous in (t, x)), plus one exact solution "
     "per equation.  Non-trivial = exact residual not identically zero on the grid; distinct by (equation, layout, Tmax, field)."
 )
 ASSUMPTIONS = [
@@ -47,6 +48,9 @@ def cases(tier, seed):
         for d in (1, 2):
             out.append(dict(eq="fisher", d=d, Tmax=T, **B))
         out.append(dict(eq="ou", Tmax=T, **B))
+        # heterogeneous parameters that depend on time: their functions receive the same (rescaled) time as the equation
+        out.append(dict(eq="burgers", Tmax=T, hetero=True, **B))
+        out.append(dict(eq="fisher", d=1, Tmax=T, hetero=True, **B))
         for ns in range(1, B["species"] + 1):
             for layout in ("flat", "keyed"):
                 for perm in itertools.permutations(range(ns - 1)):
@@ -135,7 +139,8 @@ def run_case(case):
         pts = grid_points(2, k)
         combos, F = basis_fields(len(expo), 1, pairs=True)
         u = nets.poly_pinn("nonstatio_PDE", np.zeros((1, len(expo))), expo)
-        dl = JL.BurgerEquation(Tmax=T)
+        het = bool(case.get("hetero"))
+        dl = JL.BurgerEquation(Tmax=T, eq_params_heterogeneity={"nu": (lambda t, x, u, p: p.eq_params["nu"] * (1.0 + 0.5 * t[0]) + 0.1 * x[0])} if het else None)
         cs = corners([("nu", [0.3, 1.7])])
         nn0 = u.init_params()
 
@@ -149,17 +154,19 @@ def run_case(case):
         for i, coef in enumerate(F):
             J = jets(coef, expo, 2, pts, [(), (0,), (1,), (1, 1)])
             for j, c in enumerate(cs):
-                exact[i, j] = J[(0,)][0] + T * (J[()][0] * J[(1,)][0] - c["nu"] * J[(1, 1)][0])
+                nu_ = c["nu"] * (1.0 + 0.5 * pts[:, 0]) + 0.1 * pts[:, 1] if het else c["nu"]
+                exact[i, j] = J[(0,)][0] + T * (J[()][0] * J[(1,)][0] - nu_ * J[(1, 1)][0])
         labels = [str([(c_, expo[m]) for c_, m in cb]) for cb in combos]
-        viol += compare("BurgerEquation", got, exact, labels, f"Tmax={T}")
-        spot("BurgerEquation", kern, F, pv, pts, exact, labels, viol)
+        viol += compare("BurgerEquation" + ("/heterogeneous_nu(t,x)" if het else ""), got, exact, labels, f"Tmax={T}")
+        spot("BurgerEquation" + ("/heterogeneous_nu(t,x)" if het else ""), kern, F, pv, pts, exact, labels, viol)
     elif eq == "fisher":
         d = case["d"]
         nvar, expo = 1 + d, nets.monomials(1 + d, deg)
         pts = grid_points(nvar, k)
         combos, F = basis_fields(len(expo), 1, pairs=True)
         u = nets.poly_pinn("nonstatio_PDE", np.zeros((1, len(expo))), expo)
-        dl = JL.FisherKPP(Tmax=T)
+        het = bool(case.get("hetero"))
+        dl = JL.FisherKPP(Tmax=T, eq_params_heterogeneity={"g": None, "r": (lambda t, x, u, p: p.eq_params["r"] * (1.0 - 0.4 * t[0]) + 0.2 * x[0])} if het else None)
         cs = corners([("D", [0.2, 1.3]), ("r", [0.5, -1.1]), ("g", [0.7, 2.0])])
         nn0 = u.init_params()
 
@@ -175,10 +182,11 @@ def run_case(case):
             lap = sum(J[(a, a)][0] for a in range(1, nvar))
             for j, c in enumerate(cs):
                 U = J[()][0]
-                exact[i, j] = J[(0,)][0] - T * (c["D"] * lap + U * (c["r"] - c["g"] * U))
+                r_ = c["r"] * (1.0 - 0.4 * pts[:, 0]) + 0.2 * pts[:, 1] if het else c["r"]
+                exact[i, j] = J[(0,)][0] - T * (c["D"] * lap + U * (r_ - c["g"] * U))
         labels = [str([(c_, expo[m]) for c_, m in cb]) for cb in combos]
-        viol += compare(f"FisherKPP/d{d}", got, exact, labels, f"Tmax={T} d={d}")
-        spot(f"FisherKPP/d{d}", kern, F, pv, pts, exact, labels, viol)
+        viol += compare(f"FisherKPP/d{d}" + ("/heterogeneous_r(t,x)" if het else ""), got, exact, labels, f"Tmax={T} d={d}")
+        spot(f"FisherKPP/d{d}" + ("/heterogeneous_r(t,x)" if het else ""), kern, F, pv, pts, exact, labels, viol)
     elif eq == "ou":
         nvar, expo = 3, nets.monomials(3, deg)
         pts = grid_points(3, k)
@@ -271,8 +279,8 @@ def run_case(case):
         labels = [str([(c_, expo[m]) for c_, m in cb]) for cb in combos]
         viol += compare(f"NavierStokes2DStatio/{case['layout']}", got, exact, labels, "")
         spot(f"NavierStokes2DStatio/{case['layout']}", kern, F, pv, pts, exact, labels, viol)
-    nontrivial = [f"{eq}|{case.get('d')}|{case.get('layout')}|{T}|{labels[i]}" for i in range(len(labels)) if np.any(np.abs(exact[i]) > 0)]
-    return dict(viol=viol, evals=int(np.prod(exact.shape)), nontrivial=nontrivial, outcomes=[f"{eq}|{case.get('d')}|{case.get('layout')}|{T}|{round(float(np.sum(np.abs(exact))), 5)}"],
+    nontrivial = [f"{eq}|{case.get('d')}|{case.get('layout')}|{case.get('hetero')}|{T}|{labels[i]}" for i in range(len(labels)) if np.any(np.abs(exact[i]) > 0)]
+    return dict(viol=viol, evals=int(np.prod(exact.shape)), nontrivial=nontrivial, outcomes=[f"{eq}|{case.get('d')}|{case.get('layout')}|{case.get('hetero')}|{T}|{round(float(np.sum(np.abs(exact))), 5)}"],
                 sample={"case": case, "fields": len(labels), "param_corners": len(cs), "points": len(pts)})
 
 
